@@ -332,9 +332,30 @@ def _extractor(fmt):
 
 
 def units_rtf(units):
+    """RTF whose title, body paragraph and one table cell contain exactly the given run of \\uN escapes."""
     esc = "".join("\\u%d?" % (u if u < 32768 else u - 65536) for u in units)
     return ("{\\rtf1\\ansi\\ansicpg1252\\deff0{\\fonttbl{\\f0\\fswiss Helvetica;}}{\\info{\\title " + esc
-            + "}{\\author zq0009x}}\n\\pard\\plain zq0001x " + esc + " zq0002x\\par}").encode("ascii")
+            + "}{\\author zq0009x}}\n\\pard\\plain zq0001x " + esc + " zq0002x\\par\n"
+            + "\\trowd\\cellx3000\\cellx6000\\intbl zq0003x\\cell " + esc + "\\cell\\row\\pard\\par}").encode("ascii")
+
+
+def enrich(doc):
+    """Add a third row to the first table of a docrun.rich_doc (so that rows != columns)."""
+    k = doc.get("kind", "flow")
+    if k == "flow":
+        for b in doc["blocks"]:
+            if b[0] == "tbl":
+                b[1].append([[["p", [["r", 10]]]], [["p", [["r", 11]]]]])
+                break
+    elif k == "deck":
+        for sl in doc["slides"]:
+            for sh in sl["shapes"]:
+                if sh[0] == "tbl":
+                    sh[1].append([[[["r", 10]]], [[["r", 11]]]])
+                    return doc
+    elif k == "book":
+        doc["sheets"][0]["rows"].append([["s", 10], ["s", 11]])
+    return doc
 
 
 _ACTIVE = False
